@@ -200,6 +200,10 @@ Definition send_ack_eof (s : rstate) : rstate :=
 
 Definition check_file_size (now : N) (size : N) (s : rstate) : rstate :=
   if size <? end_or_0 (r_segs s) then fst (handle_fault now FilesizeError s) else s.
+(* the boolean check_file_size returns: should the caller continue? (false when the FilesizeError
+   fault handler cancelled, suspended or abandoned the transaction) *)
+Definition cfs_go (now : N) (size : N) (s : rstate) : bool :=
+  if size <? end_or_0 (r_segs s) then snd (handle_fault now FilesizeError s) else true.
 
 Definition send_finished (now : N) (s : rstate) : rstate :=
   let s := upd_ack (c_restart now) s in
@@ -429,13 +433,16 @@ Definition pdu_eof_unacked (now : N) (e : eof) (s : rstate) : rstate :=
     let s := set_r_cksum (Some (eof_ck e)) s in
     let s := emit_ind IEoFRecv s in
     if cond_eqb (r_cond s) NoError then
+      let go := cfs_go now (eof_size e) s in
       let s := check_file_size now (eof_size e) s in
-      let s := set_r_fsize (Some (eof_size e)) s in
-      let s := finalize_receive now s in
-      if closure s then
-        let s := set_r_phase RFinished s in
-        prepare_finished (if cond_eqb (r_cond s) NoError then None else Some (cfg_dst (r_cfg s))) s
-      else shutdown now s
+      if go then
+        let s := set_r_fsize (Some (eof_size e)) s in
+        let s := finalize_receive now s in
+        if closure s then
+          let s := set_r_phase RFinished s in
+          prepare_finished (if cond_eqb (r_cond s) NoError then None else Some (cfg_dst (r_cfg s))) s
+        else shutdown now s
+      else s
     else cancel_ now s.
 
 Definition pdu_metadata_unacked (m : metadata) (s : rstate) : rstate :=
@@ -637,6 +644,7 @@ Arguments emit_pdu {FS}.
 Arguments send_ack_eof {FS}.
 Arguments send_finished {FS}.
 Arguments send_naks {FS}.
+Arguments cfs_go {FS}.
 Arguments answer_prompt {FS}.
 Arguments send_pdu {FS}.
 Arguments staged_content {FS}.
